@@ -62,12 +62,16 @@ func genC13(r *Rand, tier string, ord int) *Trial {
 				all.Seqs[i] = string(b)
 			}
 		}
+		refFirst := true
 		if k := r.Intn(len(all.Names)); k > 0 && r.P(0.4) { // the reference record need not come first in a file
 			all.Names[0], all.Names[k] = all.Names[k], all.Names[0]
 			all.Seqs[0], all.Seqs[k] = all.Seqs[k], all.Seqs[0]
+			refFirst = false
 		}
 		c = &Case{Cmd: "variants", Files: map[string]string{"msa": all.FASTA(genLayout(r))}}
 		c.Opts.RefID = "ref"
+		// piped alignment, reference first: the reference is taken off the stream before the workers start
+		c.Opts.Stdin = refFirst && r.P(0.35)
 		if form == "variants-gb" {
 			c.Files["anno"], c.Opts.AnnoSuffix = an.GenBank(ref), "gb"
 		} else {
